@@ -25,16 +25,22 @@ def programs(tier):
                             # the associated type inside response types that are not paths
                             q("iq_tup_assoc", "(u64, Self::Rt)"), q("iq_arr_assoc", "[Self::Rt; 2]"), q("iq_opt_tup_assoc", "Option<(u32, Self::Rt)>"), Method("exec", "ie", ())))
     i1 = Interface(name="If1", module="if1", custom="msg=Empty, query=Empty", methods=(q("jq_inner", "Inner"), q("jq_addr", "Addr")))
+    # two associated types first used in the reverse of their declaration order, by arguments and by response types
+    BA = "sylvia::serde::Serialize + sylvia::serde::de::DeserializeOwned + std::fmt::Debug + Clone + PartialEq + sylvia::schemars::JsonSchema"
+    i2 = Interface(name="If2", module="if2", custom="msg=Empty, query=Empty", assoc=(("AmountT", BA), ("LabelT", BA)), assoc_impl=(("AmountT", "u64"), ("LabelT", "String")),
+                   methods=(q("kq_label", "Self::LabelT", (Arg("x", "Self::LabelT"),)), q("kq_amount", "Self::AmountT"), q("kq_pair", "(Self::LabelT, Self::AmountT)"), q("kq_plain", "bool")))
     base = [Method("instantiate", "inst", ()), Method("exec", "ex", ())]
     out.append(("pq0", Contract(methods=tuple(base + cq), interfaces=(i0, i1), entry_points=""), {"If0": {"Self::Rt": "Coin"}}))
     out.append(("pq1", Contract(methods=tuple(base + cq[:3]), interfaces=(), entry_points=""), {}))
     out.append(("pq2", Contract(methods=tuple(base), interfaces=(i1, i0), entry_points=""), {"If0": {"Self::Rt": "Coin"}}))
+    # several parts with generic query messages (each carries the synthetic marker entry): the union must still be produced
+    out.append(("pq4", Contract(methods=tuple(base + cq[:2]), interfaces=(i2, i0), entry_points=""), {"If0": {"Self::Rt": "Coin"}, "If2": {"Self::AmountT": "u64", "Self::LabelT": "String"}}))
     B = "sylvia::serde::Serialize + sylvia::serde::de::DeserializeOwned + std::fmt::Debug + Clone + PartialEq + sylvia::schemars::JsonSchema + 'static"
     gq = [q("g_direct", "TA"), q("g_vec", "Vec<TA>"), q("g_plain", "u32"), q("g_arg", "String", (Arg("x", "TB"),)), q("g_tup", "(TA, u32)"), q("g_arr", "[TA; 2]"),
           q("g_opt_tup", "Option<(u8, TA)>")]
     out.append(("pq3", Contract(methods=tuple(base + gq), generics=(("TA", ""), ("TB", "")), where=("TA: " + B, "TB: " + B), concrete=("Inner", "u64"),
-                                entry_points="generics<Inner, u64>", new="pub const fn new() -> Self { Self { _p: std::marker::PhantomData } }", interfaces=(i1,)),
-                {"Ct": {"TA": "Inner", "TB": "u64"}}))
+                                entry_points="generics<Inner, u64>", new="pub const fn new() -> Self { Self { _p: std::marker::PhantomData } }", interfaces=(i1, i2)),
+                {"Ct": {"TA": "Inner", "TB": "u64"}, "If2": {"Self::AmountT": "u64", "Self::LabelT": "String"}}))
     if tier == "thorough":
         for j, ty in enumerate(["u32", "String", "Inner", "Vec<Inner>", "En", "Uint128", "Binary", "Addr", "Coin", "(u8, String)", "Option<u32>", "Vec<String>"]):
             for n in (0, 1, 2):
